@@ -305,3 +305,42 @@ def _hc_withdrawn_down():
     from exabgp.rib.cache import Cache
 
     return _with_patch(Cache, 'update_cache_withdraw', lambda self, nlri: None)
+
+
+# ---------------------------------------------------------------------------------------------------------------------
+# no Adj-RIB-Out kept (adj-rib-out false, route-refresh disabled): the CONFIGURED routes are still part of every
+# session's table ("configured routes plus API-announced routes ..., when adj-rib-out is kept": the condition is on the
+# API routes); a route its watchdog holds back stays held back
+def nocache_case(sessions, held):
+    inp = {'adj_rib_out': False, 'sessions': sessions, 'route_held_back_by_a_watchdog': held}
+    spec = dict(routes={'A': 10, 'B': None} if held else {'A': 10}, hold=180, nocache=True, tail={'B': 'watchdog cat withdraw'} if held else {})
+    w = c17.World(spec)
+    key = list(w.peers())[0]
+    s = Sess(w, key)
+    want = {_key(0): ('192.0.2.1', 10)}
+    try:
+        for n in range(sessions):
+            if n:
+                s.lose()
+                s.up()
+            if not s.settle():
+                return {'what': f'session {n + 1} never settles', 'input': inp}
+            if s.table.table != want:
+                return {'what': f'session {n + 1} of a neighbor without Adj-RIB-Out cache does not carry exactly the configured routes', 'input': inp, 'intended': str(sorted(want.items())), 'peer': str(sorted(s.table.table.items())), 'wire_order': ''.join(s.order)}
+            if 'E' in s.order and 'U' in s.order[s.order.index('E') :]:
+                return {'what': f'session {n + 1}: End-of-RIB before the table was complete (wire order {"".join(s.order)})', 'input': inp}
+    except Exception as e:  # noqa
+        return {'what': f'resynchronisation path raised {type(e).__name__}: {str(e)[:200]}', 'input': inp}
+    return None
+
+
+@bounded('C11', 'sessions-without-adj-rib-out')
+def sessions_without_cache(tier, seed):
+    cases = [(n, held) for n in (1, 2, 3) for held in (False, True)]
+    fails = [f for f in (nocache_case(*c) for c in cases) if f]
+    return {'evaluations': len(cases), 'distinct_nontrivial': len(cases), 'exhaustive': True, 'bound': '1, 2 and 3 consecutive sessions of a neighbor with `adj-rib-out false` and route-refresh disabled, one configured route, with and without a second one held back by its watchdog; real send statements of Peer._main, recording transport', 'rule': 'one case = (number of sessions, held-back route)', 'samples': [{'sessions': 2, 'route_held_back_by_a_watchdog': False}], 'failures': fails}
+
+
+@replayer('C11', 'sessions-without-adj-rib-out')
+def _replay_nocache(f):
+    return nocache_case(f['input']['sessions'], f['input']['route_held_back_by_a_watchdog']) is None
